@@ -52,7 +52,7 @@ pub open spec fn esc(ch: char, utf8: bool) -> Seq<char> {
     if ch == '"' { seq!['\\', '"'] } else if ch == '\\' { seq!['\\', '\\'] } else if ch == '/' { seq!['\\', '/'] }
     else if ch == '\u{08}' { seq!['\\', 'b'] } else if ch == '\u{0c}' { seq!['\\', 'f'] } else if ch == '\n' { seq!['\\', 'n'] }
     else if ch == '\r' { seq!['\\', 'r'] } else if ch == '\t' { seq!['\\', 't'] }
-    else if utf8 || (' ' <= ch && ch <= '~') { seq![ch] }
+    else if (utf8 && ' ' <= ch) || (' ' <= ch && ch <= '~') { seq![ch] }
     else { seq!['\\', 'u'].add(hex_min4_text(ch as u64)) }
 }
 pub open spec fn esc_all(s: Seq<char>, utf8: bool) -> Seq<char>
@@ -72,6 +72,81 @@ pub open spec fn rfc_esc_all(s: Seq<char>, utf8: bool) -> Seq<char>
     if s.len() == 0 { Seq::empty() } else { rfc_esc_all(s.drop_last(), utf8).add(rfc_esc(s.last(), utf8)) }
 }
 pub open spec fn json_string_text(s: Seq<char>, utf8: bool) -> Seq<char> { seq!['"'].add(esc_all(s, utf8)).add(seq!['"']) }
+// RFC 8259 section 7: the characters between the quotes of a string
+pub open spec fn is_hex(c: char) -> bool { vfmt::is_hex_char(c) }
+pub open spec fn simple_esc(c: char) -> bool { c == '"' || c == '\\' || c == '/' || c == 'b' || c == 'f' || c == 'n' || c == 'r' || c == 't' }
+pub open spec fn wf_body(b: Seq<char>) -> bool
+    decreases b.len()
+{
+    if b.len() == 0 { true }
+    else if b[0] == '\\' {
+        b.len() >= 2 && ((simple_esc(b[1]) && wf_body(b.subrange(2, b.len() as int)))
+            || (b[1] == 'u' && b.len() >= 6 && is_hex(b[2]) && is_hex(b[3]) && is_hex(b[4]) && is_hex(b[5]) && wf_body(b.subrange(6, b.len() as int))))
+    } else { b[0] != '"' && b[0] >= ' ' && wf_body(b.subrange(1, b.len() as int)) }
+}
+pub proof fn lemma_wf_concat(a: Seq<char>, b: Seq<char>)
+    requires wf_body(a), wf_body(b),
+    ensures wf_body(a.add(b)),
+    decreases a.len(),
+{
+    let c = a.add(b);
+    if a.len() == 0 { assert(c =~= b); }
+    else if a[0] == '\\' {
+        if simple_esc(a[1]) && wf_body(a.subrange(2, a.len() as int)) {
+            lemma_wf_concat(a.subrange(2, a.len() as int), b);
+            assert(c.subrange(2, c.len() as int) =~= a.subrange(2, a.len() as int).add(b));
+        } else {
+            lemma_wf_concat(a.subrange(6, a.len() as int), b);
+            assert(c.subrange(6, c.len() as int) =~= a.subrange(6, a.len() as int).add(b));
+        }
+    } else {
+        lemma_wf_concat(a.subrange(1, a.len() as int), b);
+        assert(c.subrange(1, c.len() as int) =~= a.subrange(1, a.len() as int).add(b));
+    }
+}
+pub proof fn lemma_hex_raw(s: Seq<char>)
+    requires vfmt::all_hex(s),
+    ensures wf_body(s),
+    decreases s.len(),
+{
+    if s.len() > 0 { assert(is_hex(s[0])); lemma_hex_raw(s.subrange(1, s.len() as int)); }
+}
+pub proof fn lemma_hex_digit_is_hex(d: u64) requires d < 16 ensures is_hex(vfmt::hex_digit(d)) {}
+pub proof fn lemma_esc_wf(ch: char, utf8: bool)
+    ensures wf_body(esc(ch, utf8)),
+{
+    broadcast use vfmt::axiom_hex_long;
+    reveal_with_fuel(wf_body, 3);
+    let e = esc(ch, utf8);
+    if ch == '"' || ch == '\\' || ch == '/' || ch == '\u{08}' || ch == '\u{0c}' || ch == '\n' || ch == '\r' || ch == '\t' {
+        assert(e.len() == 2); assert(e.subrange(2, 2) =~= Seq::<char>::empty());
+    } else if (utf8 && ' ' <= ch) || (' ' <= ch && ch <= '~') {
+        assert(e.subrange(1, 1) =~= Seq::<char>::empty());
+    } else {
+        let n = ch as u64;
+        let h = hex_min4_text(n);
+        if n <= 0xFFFF {
+            lemma_hex_digit_is_hex((n / 0x1000) % 16); lemma_hex_digit_is_hex((n / 0x100) % 16); lemma_hex_digit_is_hex((n / 0x10) % 16); lemma_hex_digit_is_hex(n % 16);
+            assert(e.len() == 6); assert(e.subrange(6, 6) =~= Seq::<char>::empty());
+        } else {
+            assert(vfmt::all_hex(h));
+            let rest = e.subrange(6, e.len() as int);
+            assert(rest =~= h.subrange(4, h.len() as int));
+            assert(vfmt::all_hex(rest)) by { assert forall|i: int| 0 <= i < rest.len() implies is_hex(#[trigger] rest[i]) by { assert(rest[i] == h[i + 4]); } }
+            lemma_hex_raw(rest);
+            assert(is_hex(h[0]) && is_hex(h[1]) && is_hex(h[2]) && is_hex(h[3]));
+        }
+    }
+}
+// C02, property level: whatever the string and whatever --utf8-strings, what is printed between the quotes is a well-formed
+// RFC 8259 string body: no raw quote, no raw control character, every backslash starts a legal escape
+pub proof fn lemma_esc_all_wf(s: Seq<char>, utf8: bool)
+    ensures wf_body(esc_all(s, utf8)), // @obl PRINT.string.wellformed : C02 C15
+    decreases s.len(),
+{
+    if s.len() > 0 { lemma_esc_all_wf(s.drop_last(), utf8); lemma_esc_wf(s.last(), utf8); lemma_wf_concat(esc_all(s.drop_last(), utf8), esc(s.last(), utf8)); }
+}
+
 
 //@@ item src/output_style.rs :: enum JsonStyle
 //@@ enditem
